@@ -80,6 +80,10 @@ pub enum Ev {
     Read(usize, u32, Val),
     Exit(usize),
     Abort(usize),
+    /// the invocation started to read a node (the read may be abandoned)
+    ReadStart(usize, u32),
+    /// the invocation evaluated a partial expression outside its domain
+    Outside(usize),
     /// an event reported by a hook inside the engine
     Hook(&'static str, u64, u64),
 }
@@ -238,6 +242,11 @@ pub async fn repair_tfc_node<C: Config>(
 impl<C: Config> EngineReader<'_, C> {
     async fn read_one(&self, n: u32) -> Val {
         sched::task_point("h_before_read", PK::Harness).await;
+        {
+            let mut st = self.h.st.lock();
+            st.seq += 1;
+            st.events.push(Ev::ReadStart(self.inv, n));
+        }
         let v = query_node(self.te, &self.h.program, n).await;
         sched::task_point("h_after_read", PK::Harness).await;
         let mut st = self.h.st.lock();
@@ -259,6 +268,15 @@ impl<C: Config> Reader for EngineReader<'_, C> {
             Ok(futures::future::join_all(ns.iter().map(|n| self.read_one(*n)))
                 .await)
         })
+    }
+
+    fn outside_domain(&self) -> Val {
+        // not a panic: the oracle decides (a minimised program may read a
+        // partial node without its guard, which is not the engine's fault)
+        let mut st = self.h.st.lock();
+        st.seq += 1;
+        st.events.push(Ev::Outside(self.inv));
+        vec![crate::program::UNDEF]
     }
 
     fn read_unord(&self, ns: &[u32]) -> BoxFut<'_, Result<Vec<Val>, Abort>> {
@@ -312,14 +330,14 @@ impl NodeExec {
                 k
             };
             let do_panic = st.panic_at.is_some_and(|(pn, pk)| pn == n && k >= pk);
-            if do_panic {
-                st.injected_panics += 1;
-            }
             (id, do_panic)
         };
         let mut guard = InvGuard { h, id, node: n, done: false };
         sched::task_point("h_exec_enter", PK::Harness).await;
         if do_panic {
+            // counted when it happens: the executor may be dropped at the
+            // point above (an abandoned sub-query) before it gets here
+            h.st.lock().injected_panics += 1;
             panic!("{INJECTED_PANIC}");
         }
         let v = if h.program.kind(n) == Kind::Ex {
